@@ -123,7 +123,9 @@ def auto_set(u, rep, ddtype, timeout):
         d = u.d.SNRDistinguisher(partitions=None, precision='float32')
         X = H.sym_reals('X', (2, 1), 'float32'); Y = H.sym_ints('Y', (2, 1), ddtype)
         d._initialize(X, Y)
-        return d, Y
+        K_ = L.shim_len(d.partitions)
+        if not isinstance(K_, int): K_ = K_.__index__()      # a size computed from the data: one path per feasible value (finite), so that the contract does not depend on how the size is computed
+        return d, Y, K_
     seen = set()
     for p, outc, exc in core.explore(body):
         if exc is not None:
@@ -137,8 +139,8 @@ def auto_set(u, rep, ddtype, timeout):
             else:
                 rep.obligation('post[auto class set %s]' % ddtype, fn, 'post', dict(result='sat', backend='exec', secs=0), sample=repr(exc)); rep.violation('post[auto class set %s]' % ddtype, fn, 'raises %r' % (exc,), dict(kind='auto', ddtype=ddtype), None, *native(dict(kind='auto', ddtype=ddtype)))
             continue
-        d, Y = outc
-        K = L.shim_len(d.partitions); seen.add(K if isinstance(K, int) else str(K))
+        d, Y, K = outc
+        seen.add(K if isinstance(K, int) else str(K))
         sg = _rnp.dtype(ddtype).kind == 'i'
         goals = []
         for i in range(2):
@@ -147,7 +149,7 @@ def auto_set(u, rep, ddtype, timeout):
         # and the class list really is 0..K-1
         isrange = all(int(core.conc(core.zi(d.partitions.at(k)))) == k for k in range(K)) if isinstance(K, int) else False
         res = solve.discharge(p.pc, z3.And(z3.BoolVal(isrange), *goals), timeout_ms=timeout)
-        nm = 'post[auto class set of size %s contains every value of the first batch, %s]' % (K, ddtype)
+        nm = 'post[auto class set of size %s contains every value of the first batch, %s]' % (K if isinstance(K, int) else 'chosen by a data-dependent computation', ddtype)
         rep.obligation(nm, fn, 'post', res, sample='forall first batches: every value present is a declared class')
         if res['result'] == 'sat':
             vals = [solve.mval(res['model'], z3.BV2Int(Y.at(i, 0).z, is_signed=sg)) for i in range(2)]; case = dict(kind='auto', ddtype=ddtype, values=vals)
